@@ -328,7 +328,25 @@ def never_after(ctx, inst, body, a_nodes, b_nodes, what):
 def guard_edges_for_call(body, p_nodes, value):
     """switch edges on which the result of one of the predicate calls p_nodes has abstract value `value`"""
     keys = A.call_roots(body, p_nodes)
-    return A.pred_edges(body, lambda e: e.key() in keys, value)
+    edges = A.pred_edges(body, lambda e: e.key() in keys, value)
+    if value in ("true", "false"):
+        # Result<bool> / Option<bool>: the boolean payload of the call's result (`f()? `, `if let Ok(b) = f()`)
+        def payload(e):
+            x = e
+            d = 0
+            while d < 8:
+                if x.k in ("field", "downcast") and x.a:
+                    x = x.a[0]
+                    d += 1
+                    continue
+                if x.k == "call" and x.a and path_matches(x.extra, "Try::branch"):
+                    x = x.a[0]
+                    d += 1
+                    continue
+                break
+            return d > 0 and x.key() in keys
+        edges = edges + A.pred_edges(body, payload, value)
+    return edges
 
 
 def guard(ctx, inst, body, s_nodes, edges, what, require_edges=True):
